@@ -1,6 +1,7 @@
 """Per-property check definitions for vcheck (legs, bounds, floors, evidence rules)."""
 import os
 from concurrent.futures import ThreadPoolExecutor
+import c18
 
 
 def K(q, t):
@@ -209,6 +210,25 @@ PROPS = {
         level_text="Every exported C function is driven in random histories next to the C++ object it wraps and every returned byte, length, boolean and offset is compared; "
                    "ownership errors surface as ASan/LSan reports.",
         level_note="a defect shared by the C++ call and its wrapper is invisible here; function coverage is enforced from the header text",
+    ),
+    "C18": dict(
+        custom=c18.pre,
+        post=c18.post,
+        legs=[dict(monitor="obs18", config=cfg, name=c18.legname(cfg), cases=K(400000, 40000000)) for cfg in c18.CONFIGS],
+        rule="one deterministic observer program (parse +base and setter histories for both URL types with to_string, can_parse, host shapes biased to what the ISA-specific "
+             "kernels look at: pure-decimal dotted strings of 7-20 bytes with '..', leading/trailing dots and 4-digit parts, IPv6 colon/dot shapes, delimiters and tabs in late "
+             "16-byte blocks; IDNA, search-params sort, percent-encoding, url_pattern construction/test/exec incl. init dictionaries) is built five ways - plain SSE2, -mssse3, "
+             "-mavx512bw -mavx512vl, ADA_DEVELOPMENT_CHECKS=1, and from a fresh run of singleheader/amalgamate.py - and run on the same seed-derived cases; everything observable "
+             "is rendered into one line per case, lines are hashed per 500-case block and block digests are compared with the plain build; a differing block is re-run in dump "
+             "mode to name the first differing case; an assertion abort or crash in any configuration is a violation. Non-trivial/distinct: (case kind, failure?, long output?).",
+        floors=dict(any={"hook.hostdelim_simd": 50000, "hook.tabs_simd": 50000, "hook.ipv4_fast_ok": 5000, "hook.ipv4_fast_fail": 5000, "evaluations": 100000}),
+        assumptions=["only the x86-64 configurations this CPU executes (SSE2, SSSE3, AVX-512BW+VL); NEON/LSX/RVV kernels are out of reach here",
+                     "the observer renders public API results only; equality of digests means equality of those renderings",
+                     "the amalgamated configuration is produced by running singleheader/amalgamate.py of the tree under test"],
+        technique="cross-build differential monitor: identical deterministic workload under five build configurations, block digests compared, library assertions armed in one leg",
+        level_text="The same 10^5-10^7 cases are executed by five differently built copies of the library and every observable rendering must be identical; "
+                   "hook counters show the SIMD kernels and the IPv4 fast kernel were reached in each configuration.",
+        level_note="equality is judged on the observer's rendering (all getters, predicates, offsets, return values, serialisations)",
     ),
     "C16": dict(
         legs=[dict(monitor="idna", config="asan", name="idna:c16/asan", args=["--mode", "c16"], cases=K(300000, 30000000))],
